@@ -412,7 +412,9 @@ pub fn run_timed_iter(cfg: &Cfg, steps: &mut dyn Iterator<Item = TimedStep>, tab
                 Some(rfd) => {
                     let t = mono_ms();
                     let mut ok = false;
-                    while mono_ms() - t < 2_000 {
+                    // (generous: on a loaded machine the reader thread may not be scheduled for a while; the watchdog
+                    // limit is 20 s)
+                    while mono_ms() - t < 12_000 {
                         if pipe_drained_and_reader_blocked(rfd) {
                             ok = true;
                             break;
